@@ -642,12 +642,11 @@ def _r8_cache(model: Model, run: Run, folder: Folder) -> None:
 
 # ---------------------------------------------------------------------------------------------- R9
 # nested lengths used without a comparison in sight, protected by something else (confirmed by reading)
+# keyed by function: the reason given holds for every nested length of that function (and does not depend on how its locals are called)
 R9_TRIAGED = {
-    ('ASPath._unpack_segments_static', 'end'): 'each AS is read with struct.unpack on an exact-size slice inside a try that turns struct.error / IndexError into Notify(3, 11): a short segment is refused, not shortened',
-    ('MPRNLRI._parse_nexthop_and_nlris', 'len_nh'): 'lazy re-parse of bytes MPRNLRI.unpack_attribute validated (next-hop length against the family table and the buffer) before the object was built',
-    ('MPRNLRI._parse_nexthop_and_nlris', 'rd'): 'same: validated by MPRNLRI.unpack_attribute',
-    ('MPRNLRI._parse_nexthop_and_nlris', 'size'): 'same: validated by MPRNLRI.unpack_attribute',
-    ('Attributes.__iter__', 'length'): 'read-only view over an attribute block AttributeCollection.parse already accepted (C08.R2 covers the check there)',
+    'ASPath._unpack_segments_static': 'each AS is read with struct.unpack on an exact-size slice inside a try that turns struct.error / IndexError into Notify(3, 11): a short segment is refused, not shortened',
+    'MPRNLRI._parse_nexthop_and_nlris': 'lazy re-parse of bytes MPRNLRI.unpack_attribute validated (next-hop length against the family table and the buffer) before the object was built',
+    'Attributes.__iter__': 'read-only view over an attribute block AttributeCollection.parse already accepted (C08.R2 covers the check there)',
 }
 
 
@@ -733,10 +732,8 @@ def _r9_nested_lengths(model: Model, run: Run) -> None:
                 for c in walk_no_nested(fi.node):
                     if isinstance(c, ast.Call) and (dotted(c.func) or '').endswith('check_length') and names(c) & ls and getattr(c, 'lineno', 0) <= getattr(n, 'lineno', 0):
                         why = 'length checked by %s' % norm(c)[:60]
-            if why is None:
-                tri = [R9_TRIAGED[(short(q), v)] for v in sorted(ls) if (short(q), v) in R9_TRIAGED]
-                if len(tri) == len(ls):
-                    why = 'triaged: ' + tri[0]
+            if why is None and short(q) in R9_TRIAGED:
+                why = 'triaged: ' + R9_TRIAGED[short(q)]
             inst = '%s: %s %s' % (short(q), kind, norm(n)[:60])
             if why is not None:
                 run.ok(inst, why)
